@@ -13,10 +13,33 @@ def users_calls(fn, method):
                 yield b, j, st, x
 
 
-def keyoff_tests(fn):
-    """blocks that evaluate `users.empty()` and whose true edge reaches a `noteOff` call on the synth before anything else leaves"""
+def keyoff_helpers(facts):
+    """functions that do the last-user test themselves on every path from their entry (`if(chan.users.empty()) synth.noteOff(c);`
+    extracted into a helper): a call of one is a key-off test at the call site"""
+    c = getattr(facts, '_keyoff_helpers', None)
+    if c is None:
+        c = set()
+        for g in facts.all_fns():
+            if g.tree is None or not g.file.startswith(build.REPO) or '/chips/' in g.file:
+                continue
+            if not any(short(callee_name(x)) == 'empty' for x in calls_in(g.tree)):
+                continue
+            t = set(keyoff_tests(g))
+            if t and every_path_passes(g, g.cfg.entry, 0, t, []):
+                c.add(g.name)
+        facts._keyoff_helpers = c
+    return c
+
+
+def keyoff_tests(fn, helpers=()):
+    """blocks that evaluate `users.empty()` and whose true edge reaches a `noteOff` call on the synth before anything else leaves
+    (or that call a helper which does exactly that)"""
     out = []
     cfg = fn.cfg
+    if helpers:
+        for b, j, st in cfg.stmts():
+            if any(callee_name(x) in helpers for x in calls_in(st['s'])):
+                out.append(b)
     for bid, blk in cfg.blocks.items():
         c = blk.get('cond')
         if c is None:
@@ -101,13 +124,14 @@ def callers_of(facts, fn):
 def erase_keyoff_obligations(facts, rule):
     obls = []
     n = 0
+    helpers = keyoff_helpers(facts)
     for fn in facts.all_fns():
         if not fn.name.startswith('OPNMIDIplay::'):
             continue
         for method in ('erase', 'clear'):
             for b, j, st, call in users_calls(fn, method):
                 n += 1
-                tests = set(keyoff_tests(fn))
+                tests = set(keyoff_tests(fn, helpers))
                 gf = guard_facts(fn, b, st)
                 ok = bool(tests) and every_path_passes(fn, b, j, tests, gf)
                 where = 'in the same function'
@@ -117,7 +141,7 @@ def erase_keyoff_obligations(facts, rule):
                     if cs:
                         ok = True
                         for g, cb, cj, cst in cs:
-                            t2 = set(keyoff_tests(g))
+                            t2 = set(keyoff_tests(g, helpers))
                             if not (t2 and every_path_passes(g, cb, cj, t2, guard_facts(g, cb, cst))):
                                 ok = False
                                 where = 'caller %s has a path to its exit without the test' % short(g.name)
